@@ -406,6 +406,8 @@ def run(ctx):
         ctx.count("paging")
         ctx.ob("C15.d", wid.qual, ok_id and n_ret >= 1, "the response handed back for an id is one whose id equals it", func=wid.qual, file=wid.module.rel, construct="response.id == response_id",
                fail="_send_command_get_response_with_id can hand back a response with another id: the capability query is answered by whatever else arrived")
+    from . import c12
+    ctx.import_rules(c12, "t12", only=("C12.a",))          # (a capability page is only interpreted if its valid frame is accepted: the checksum formula)
     ctx.require_min("record_loops", 1)
     ctx.require_min("back_edges", 1)          # (a single advance statement at the end of the body is one back edge)
     ctx.require_min("reads", 2)
